@@ -213,13 +213,13 @@ CLAIMED = {
               'direct/implied X, with/without CONS tables) and BIT (1..3 passes) files are converted by the real single_*_to_las functions under '
               'selector x channel request x reduction x width x format; every output is split by an independent reader, projected onto the source '
               '(rows by unique X, columns by name, printed STRT/STOP/STEP as scaled integers) and each run is validated by TLC against '
-              'ToLasTrace.tla (rows = Python slice exactly / a sample of at most N increasing from frame 0, columns = X + requested, well section = '
+              'ToLasTrace.tla (rows = Python slice exactly, either sign of the step / a sample of at most N increasing from frame 0, columns = X + requested, well section = '
               'first/last/mean spacing of the written rows, result tuple, file gate for foreign formats); values are compared with the recorded '
               'content within the print precision and every output must be accepted by the real LASRead with the same shape.  The cut of a LIS '
               'index into logical files (one LAS file per log pass) is LisSplit.tla: TLC checks the loop against the declarative statement for '
               'every entry sequence <= 6, refutes the two earlier designs (F24, F30) and every sequence <= 4 (5) is rendered as a real LIS file '
               'and converted.'),
-        note=('Known findings F3-C11, F11-C11, F21, F22, F23 are recognised by exact signature/emulation.  An empty selection may be reported as '
+        note=('Known findings F3-C11, F11-C11, F21, F22, F23 are recognised by exact signature/emulation; F34 (the LIS frame loader does not implement negative slice steps) by its input class.  F33 (BIT, negative step reaching frame 0) was found by the same inputs and fixed.  An empty selection may be reported as '
               'failure or as a file without rows.  RP66V1 ORIGIN carries the attributes the converter reads.'),
         technique='TLA+ spec + TLC model checking of the converter designs; TLC trace validation of real conversion runs'),
     'C12': dict(
